@@ -141,6 +141,12 @@ def general(cx):
     for kind, node in cx.bulk:
         ctx.undecided("C04-E1", cx.rs(node), f"{fmt}: {kind} are stored in bulk, not row by row", "the row model of the reader does not apply")
     for blk in cx.blocks:
+        if blk.kind in cc.KINDS and blk.kind not in VOCAB.get(fmt, cc.KINDS) and not blk.outer_reps:
+            ctx.fail("C04-E1", cx.ws(blk.write), f"{fmt}: rows of mesh.{blk.kind} are written, an element kind the {fmt} format cannot express",
+                     f"the {fmt} format describes {' / '.join(VOCAB[fmt])} only: to any reader of the format these rows are "
+                     f"{' or '.join(k for k in VOCAB[fmt] if k != 'vertices') or 'points'}, not {blk.kind}; an element kind a format cannot "
+                     f"express must be absent from the file, never turned into something else")
+    for blk in cx.blocks:
         if blk.fields == 0 and not blk.unknown and fmt != "geogram":
             blk.unknown.append(blk.rep.node)          # no element of the row recognised among the tokens
         if blk.unknown:
@@ -204,7 +210,7 @@ def l1_writer(cx):
         if blk.kind != "vertices":
             continue
         for lf in blk.leaves:
-            c = cx.prov.classify(lf.expr, lf.expr)
+            c = em.leaf_class(cx.prov, lf)
             key = (id(lf.node), au.src(lf.expr), lf.spec, lf.conv)
             if key in seen or not c:
                 continue
@@ -236,7 +242,7 @@ def b1_writer(cx):
         if blk.kind not in INDEX_KINDS:
             continue
         for lf in blk.leaves:
-            c = cx.prov.classify(lf.expr, lf.expr)
+            c = em.leaf_class(cx.prov, lf)
             key = (id(lf.node), au.src(lf.expr))
             if key in seen or not c:
                 continue
@@ -1258,6 +1264,7 @@ def header_counts_writer(cx):
     None when the head of the file is not understood"""
     out = []
     head = []
+    cx.count_sel = {}
     for x in cx.tree:
         if isinstance(x, (em.Rep,)):
             break
@@ -1275,9 +1282,37 @@ def header_counts_writer(cx):
                     return None
                 continue
             e = cc.resolve(cx.b, lf.expr, at=cx.wfn.body[-1])
-            if isinstance(e, ast.Call) and isinstance(e.func, ast.Name) and e.func.id == "len" and len(e.args) == 1 \
-                    and cx.prov.container_kind(e.args[0]) in cc.KINDS:
-                out.append((cx.prov.container_kind(e.args[0]), lf, tok))
+            terms = []
+
+            def add_terms(x):
+                if isinstance(x, ast.BinOp) and isinstance(x.op, ast.Add):
+                    add_terms(x.left)
+                    add_terms(x.right)
+                else:
+                    terms.append(x)
+            e0 = lf.expr
+            if isinstance(e0, ast.Name):
+                d0 = cx.b.reaching(e0.id, cx.wfn.body[-1])
+                e0 = d0 if d0 is not None else e0
+            add_terms(e0 if isinstance(e0, (ast.BinOp, ast.Call)) else e)      # original nodes keep their scope for classification
+            kinds_ = []
+            for x in terms:
+                k_ = None
+                if isinstance(x, ast.Call) and isinstance(x.func, ast.Name) and x.func.id == "len" and len(x.args) == 1:
+                    k_ = cx.prov.container_kind(x.args[0])
+                    if k_ not in cc.KINDS:
+                        info = cx.prov.rows_info(x.args[0], cx.wfn.body[-1])
+                        k_ = info[0] if info else None
+                        if info:
+                            # the rows counted are a selection of the container: remember which one
+                            sel = "?" if info[2] else None
+                            for t_ in info[1]:
+                                n_ = em._len_eq(t_, True, lambda e_: em._is_len_of(e_, cx.prov, k_, t_))
+                                sel = n_ if n_ is not None and sel is None else "?"
+                            cx.count_sel[k_] = sel
+                kinds_.append(k_ if k_ in cc.KINDS else None)
+            if kinds_ and all(kinds_):
+                out.append((kinds_[0] if len(kinds_) == 1 else tuple(kinds_), lf, tok))
             else:
                 out.append((None, lf, tok))
     return out
@@ -1342,13 +1377,14 @@ def h1_flat_header(cx, first_token_counts=False):
                       f"{fmt}: header count #{i + 1} is read from token {pos} of its line, the exporter writes it as token {tok}",
                       "the number of rows to read is taken from the wrong token", note=f"{fmt}: count #{i + 1} token position agrees")
         mine = [wb.kind for wb in cx.blocks if wb.kind in kinds and not wb.outer_reps]
-        ctx.check(wk in kinds and (not mine or set(mine) == {wk}), "C04-H1", wsite,
-                  f"{fmt}: header count #{i + 1} written is len(mesh.{wk}) but the importer uses count #{i + 1} to read "
+        wks = set(wk) if isinstance(wk, tuple) else {wk}
+        ctx.check(wks <= kinds and (not mine or set(mine) == wks), "C04-H1", wsite,
+                  f"{fmt}: header count #{i + 1} written is the number of {'/'.join(sorted(wks))} but the importer uses count #{i + 1} to read "
                   f"{'/'.join(sorted(kinds))}",
                   f"that count bounds the loop that reads {'/'.join(sorted(kinds))} rows; the exporter writes the number of "
                   f"{wk} there: rows are mis-assigned or the file is truncated on reload",
                   note=f"{fmt}: count #{i + 1} = number of {wk} on both sides")
-    order = [k for k, lf, tok in wc]
+    order = [k2 for k, lf, tok in wc for k2 in (k if isinstance(k, tuple) else (k,))]
     for k in rows:
         ctx.check(k in order, "C04-H1", wsite, f"{fmt}: rows of mesh.{k} are written but their number is not in the header",
                   "the importer reads exactly as many rows as the header announces")
@@ -1361,18 +1397,31 @@ def h1_flat_header(cx, first_token_counts=False):
         if wb.other_guards:
             ctx.undecided("C04-H1", cx.ws(wb.write), f"{fmt}: {wb.kind} rows are selected by a condition the rule does not read", "")
         else:
-            ctx.check(wb.guard_n is None and wb.via in ("loop", "range"), "C04-H1", cx.ws(wb.write),
-                      f"{fmt}: only some {wb.kind} rows are written while the header announces len(mesh.{wb.kind})",
+            sel = cx.count_sel.get(wb.kind)
+            if sel == "?":
+                ctx.undecided("C04-H1", cx.ws(wb.write), f"{fmt}: the {wb.kind} rows counted in the header are selected in a way the rule does not read", "")
+                continue
+            ctx.check(wb.guard_n == sel and wb.via in ("loop", "range"), "C04-H1", cx.ws(wb.write),
+                      f"{fmt}: the {wb.kind} rows written are not the ones the header counts"
+                      if sel is not None else f"{fmt}: only some {wb.kind} rows are written while the header announces len(mesh.{wb.kind})",
                       "the importer reads exactly as many rows as the header announces")
     rorder = [sorted(kinds) for name, kinds, st, pos in used]
-    ok = len(rorder) >= len(rows) and all(rows[i] in rorder[i] for i in range(len(rows)))
-    if not ok and len(used) < len(rc) and len(rorder) < len(rows):
+    # the blocks announced by one count are read by one loop of the importer
+    groups = []
+    for k, lf, tok in wc:
+        ks = set(k) if isinstance(k, tuple) else {k}
+        g_ = [r_ for r_ in rows if r_ in ks]
+        if g_:
+            groups.append(g_)
+    ok = len(rorder) >= len(groups) and all(set(groups[i]) <= set(rorder[i]) for i in range(len(groups)))
+    if not ok and len(used) < len(rc) and len(rorder) < len(groups):
         ctx.undecided("C04-H1", rsite, f"{fmt}: a header count of the importer bounds a loop the rule does not recognise", "")
     else:
         ctx.check(ok, "C04-H1", rsite, f"{fmt}: importer reads blocks {rorder}, exporter writes {rows}",
                   "blocks must be read in the order they are written")
     if first_token_counts:
         for kind, lf, tok in wc:
+            kind = "/".join(kind) if isinstance(kind, tuple) else kind
             ctx.check(tok == 0, "C04-H1", cx.ws(lf.node), f"{fmt}: the number of {kind} is token #{tok} of its header line",
                       "the importer parses the first token of each header line as the count",
                       note=f"{fmt}: count of {kind} leads its header line")
